@@ -86,6 +86,10 @@ func verifHarnessC10() {
 			verifAssert(err == nil, id+".value-err")
 			verifAssert(len(v) == len(snap.val[c]), id+".value-len")
 			verifAssert(verifBytesEq(v, snap.val[c]), id+".value")
+			// the caller does with the returned slices what callers do: builds derived keys/values by appending
+			// (the snapshot's other keys and values must not live in their spare capacity)
+			_ = append(k, '/', 0xEE)
+			_ = append(v, 0xEE, 0xEE)
 		}
 	}
 	seek := func() {
